@@ -17,6 +17,8 @@ type Opts struct {
 	Styles bool // vary the rendering
 	MaxTok int
 	MaxRul int
+	Guarded  bool // every production starts with a token unique among its rule's alternatives (LL(1)-like, mostly conflict-free)
+	SugarPct int  // probability of sugar on a term (default 30)
 }
 
 func ri(t *rapid.T, lo, hi int, l string) int { return rapid.IntRange(lo, hi).Draw(t, l) }
@@ -39,7 +41,11 @@ func anyTerm(t *rapid.T, g *G, nR int, o Opts) Term {
 	if o.Err && roll >= 93 {
 		return Term{Kind: KErr}
 	}
-	if !o.Sugar || roll >= 30 {
+	pct := o.SugarPct
+	if pct == 0 {
+		pct = 30
+	}
+	if !o.Sugar || roll >= pct {
 		return base
 	}
 	k := []Kind{KOpt, KStar, KPlus, KStarF, KList, KListOpt}[ri(t, 0, 5, "sk")]
@@ -72,7 +78,16 @@ func GenG(t *rapid.T, o Opts) *G {
 		seen := map[string]bool{}
 		for j := 0; j < nP; j++ {
 			var p Prod
-			switch tmpl := ri(t, 0, 13, "tmpl"); {
+			tmpl := ri(t, 0, 13, "tmpl")
+			if o.Guarded && tmpl != 6 {
+				tmpl = 0
+			}
+			switch {
+			case o.Guarded && tmpl == 0: // guard unique within the rule, longer bodies
+				p.Terms = append(p.Terms, tokTerm(g, j+i))
+				for k, n := 0, ri(t, 0, 4, "n"); k < n; k++ {
+					p.Terms = append(p.Terms, anyTerm(t, g, nR, o))
+				}
 			case tmpl <= 3 || tmpl >= 11: // guarded
 				p.Terms = append(p.Terms, tokTerm(g, j+ri(t, 0, nT-1, "g")))
 				for k, n := 0, ri(t, 0, 3, "n"); k < n; k++ {
@@ -131,8 +146,8 @@ func GenG(t *rapid.T, o Opts) *G {
 		}
 	}
 	makeProductive(g)
-	if ri(t, 0, 3, "connect") != 0 {
-		connect(t, g)
+	if o.Guarded || ri(t, 0, 3, "connect") != 0 {
+		connect(t, g, o.Guarded)
 	}
 	if o.Styles {
 		g.Style = ri(t, 0, 15, "style")
@@ -142,7 +157,7 @@ func GenG(t *rapid.T, o Opts) *G {
 
 // connect makes every rule reachable from the start rule by adding guarded
 // alternatives ("Tk rule") to reachable rules.
-func connect(t *rapid.T, g *G) {
+func connect(t *rapid.T, g *G, guardedOnly bool) {
 	idx := map[string]int{}
 	for i, r := range g.Rules {
 		idx[r.Name] = i
@@ -178,7 +193,7 @@ func connect(t *rapid.T, g *G) {
 		}
 		host := reachable[ri(t, 0, len(reachable)-1, "chost")]
 		p := Prod{Terms: []Term{tokTerm(g, ri(t, 0, len(g.Toks)-1, "cguard")), ruleTerm(g.Rules[missing].Name)}}
-		if ri(t, 0, 7, "cbare") == 0 {
+		if !guardedOnly && ri(t, 0, 7, "cbare") == 0 {
 			p.Terms = p.Terms[1:]
 		}
 		g.Rules[host].Prods = append(g.Rules[host].Prods, p)
